@@ -1299,7 +1299,7 @@ def auto_cases(deep=False):
 
 class SMLab(Lab):
     budgets = {"quick": 5000, "thorough": 200000}
-    time_budget = {"quick": 80, "thorough": 1500}
+    time_budget = {"quick": 240, "thorough": 3600}
     use_twin = False
     assumptions = (
         "the HAL simulator's paused FPGA clock is what magicbot.state_machine.getTime reads",
